@@ -744,6 +744,8 @@ def _make_case(cfg):
         if cfg.get("negative_column"):
             X[:, 0] = -numpy.abs(X[:, 0]) - 1.0        # a feature that only takes negative values (a loss, a depth)
     y = X @ beta + (1.0 if cfg.get("fit_intercept", True) else 0.0) + rs.randn(n) * cfg["noise"]
+    if cfg.get("container") == "intY":
+        y = numpy.rint(y * 4.0)            # integer-VALUED targets; _check_case hands them over with an integer dtype
     y = y * cfg.get("scale", 1.0)          # targets of another scale; the residual floor `delta` is scaled alike
     if cfg.get("offset") and cfg.get("fit_intercept", True):
         y = y + cfg["offset"]              # a level far above the noise: the quantile hyperplane just moves with it
@@ -780,6 +782,9 @@ def _check_case(cfg):
             import pandas
             Xc = pandas.DataFrame(X, columns=["f%d" % j for j in range(d)])
             yc = pandas.Series(y, index=numpy.random.RandomState(cfg["seed"] + 2).permutation(n))
+        elif cfg.get("container") == "intY":
+            yc = numpy.asarray(y).astype(numpy.int64)       # integer-typed targets (counts): same values, another dtype
+        ys = yc if cfg.get("container") == "intY" else y
         if cfg.get("reconfigured"):
             # history: the same object was first fitted under the OPPOSITE fit_intercept / another quantile, then given its
             # configuration through set_params: the fit examined below is the one of the current parameters
@@ -800,8 +805,8 @@ def _check_case(cfg):
         f = m.predict(X)
         # --- score == 2 * (weighted) mean pinball_q
         L = _pinball(q, y, f, w)
-        s_w = float(m.score(X, y, w)) if w is not None else None
-        s_u = float(m.score(X, y))
+        s_w = float(m.score(X, ys, w)) if w is not None else None
+        s_u = float(m.score(X, ys))
         Lu = _pinball(q, y, f)
         tol = 1e-9 * max(1.0, abs(Lu))
         if abs(s_u - 2 * Lu) > tol:
@@ -827,7 +832,7 @@ def _check_case(cfg):
         f2 = m2.predict(X)
         L2 = _pinball(q, y, f2, w)
         s1 = s_w if w is not None else s_u
-        s2 = float(m2.score(X, y, w)) if w is not None else float(m2.score(X, y))
+        s2 = float(m2.score(X, ys, w)) if w is not None else float(m2.score(X, ys))
         if (L < L2 - 1e-9 and s1 > s2 + 1e-9) or (L2 < L - 1e-9 and s2 > s1 + 1e-9):
             bad.append(("score:not-monotone", "the fit with the smaller pinball_q loss gets the larger score (q=%s)" % q,
                         {"loss": [L, L2], "score": [s1, s2]}, "score increasing with the pinball loss"))
@@ -872,7 +877,7 @@ def _check_case(cfg):
                             "%s: %s" % (type(e).__name__, e), "a fitted model"))
                 return bad, stats
             # same model scored both ways: exact identity
-            a, b = float(m.score(X, y, w)), float(m.score(Xr, yr))
+            a, b = float(m.score(X, ys, w)), float(m.score(Xr, yr))
             if abs(a - b) > 1e-9 * max(1.0, abs(b)):
                 bad.append(("score:weights-vs-repeats", "score with integer weights differs from the score on repeated rows",
                             {"weighted": a, "repeated": b}, "equal"))
@@ -908,6 +913,8 @@ def _configs(ctx, count):
             out[-1]["offset"] = rng.choice([1e4, 1e5, -1e5])      # targets far from 0 compared with their spread
         if t % 5 == 3:
             out[-1]["container"] = rng.choice(["intX", "frame"])
+            if "scale" not in out[-1] and "offset" not in out[-1] and rng.random() < 0.5:
+                out[-1]["container"] = "intY"
             if out[-1]["container"] == "frame" and t % 2:
                 out[-1]["fit_intercept"] = False
     return out
